@@ -10,6 +10,8 @@ def shape_anchor_gate_answer : Bool := true
 def shape_anchor_gate_authority : Bool := true
 def shape_anchor_gate_validateDelegation : Bool := true
 def shape_bare_denials_go_through_authority : Bool := true
+def shape_cd_fetch_only_before_explicit_validation : Bool := true
+def shape_key_fetch_is_validated : Bool := true
 def shape_root_ds_from_anchors_answer : Bool := true
 def shape_root_ds_from_anchors_authority : Bool := true
 def shape_signer_checked_before_findds_answer : Bool := true
